@@ -235,7 +235,9 @@ def json_domain_problems(spec, out=None):
         if not math.isfinite(spec):
             out.append("non-finite-float")
     elif isinstance(spec, str):
-        if any(0xD800 <= ord(c) <= 0xDFFF for c in spec):
+        try:
+            spec.encode("utf-8")
+        except UnicodeEncodeError:
             out.append("lone-surrogate")
     elif isinstance(spec, list):
         for x in spec:
